@@ -119,12 +119,23 @@ def build_items(dmax, cmax, rnd):
     return items
 
 
+def recorder_for(name, circ):
+    """A recorder that numbers the objects of `circ` exactly as structure() did when the structure file was written (for probed
+    items the operations were numbered in listing order before the snapshot)."""
+    R = Recorder()
+    if name.endswith('-constructed') or name.startswith('calibration-'):
+        _ = circ.duration
+        for o in circ.operations:
+            R.oid(o)
+    return R
+
+
 def confirm(path_in, path_out, dmax, cmax, seed):
     """Re-evaluate reported overlaps on the real code: [{name, a, b, cfg}] -> adds 'confirmed'."""
     req = json.load(open(path_in))
     items = dict(build_items(dmax, cmax, random.Random(seed)))
     for r in req:
-        R = Recorder()
+        R = recorder_for(r['name'], items[r['name']])
         S = items[r['name']].circuit_structure
         with temporary_override_get_registry_at({GKN[k]: v / SCALE for k, v in r['cfg'].items()}):
             sn = R.snapshot(S, cold=True, acq=False)
@@ -145,7 +156,7 @@ def real_sweep(path_in, dmax, cmax, seed):
     items = dict(build_items(dmax, cmax, random.Random(seed)))
     for r in req:
         st = json.load(open(r['path']))
-        R = Recorder()
+        R = recorder_for(r['name'], items[r['name']])
         S = items[r['name']].circuit_structure
         rec = []
         g = st['grid']
